@@ -153,6 +153,8 @@ pub struct Field {
     pub rename: Option<String>,
     pub dflt: Dflt,
     pub skip: bool,
+    /// spelled `skip = false`: the member is parsed like any other
+    pub skip_false: bool,
     pub multiple: bool,
     pub flatten: bool,
     pub with: With,
@@ -161,7 +163,7 @@ pub struct Field {
 
 impl Field {
     pub fn new(rust: &str, ty: Ty) -> Field {
-        Field { rust: rust.to_string(), ty, rename: None, dflt: Dflt::None, skip: false, multiple: false, flatten: false, with: With::None, tr: Tr::None }
+        Field { rust: rust.to_string(), ty, rename: None, dflt: Dflt::None, skip: false, skip_false: false, multiple: false, flatten: false, with: With::None, tr: Tr::None }
     }
     pub fn addressable(&self) -> bool {
         !self.skip && !self.flatten
